@@ -681,7 +681,7 @@ fn c08(r: &Runner) {
     let al = [0x00u8, 0x01, 0x7f, 0x80, 0xff];
     for &bits in ws {
         let nb = (bits + 7) / 8;
-        let (vals, d) = pick(bits, if SWEEP { 1200 } else if r.is_thorough() { 70_000 } else { if bits <= 16 { 70_000 } else { 3000 } }, &salt(r.seed));
+        let (vals, d) = pick(bits, if SWEEP { 1200 } else if r.is_thorough() { 70_000 } else { if bits <= 16 { 70_000 } else { 12_000 } }, &salt(r.seed));
         r.universe(&format!("{d} encode + round trip"), bits, vals.len(), |i, l| {
             let a = vu(&vals[i]);
             l.states(1);
